@@ -74,7 +74,16 @@ func sameGeometry(want, got []gseg, rel, abs float64) (bad string, worst float64
 		ws[i] = want[i].Seg
 	}
 	scale := pathScale(ws)
-	short := func(s gseg) bool { return s.Kind == 'L' && s.P0.Dist(s.End) <= 16*abs+1e-10 }
+	// a line below the print resolution at its own magnitude (abs for the decimals, rel·|coordinate|
+	// for the significant digits of that coordinate: at 100 the 8-digit grid is 1e-6) cannot be told from a zero-length
+	// one: rounding creates, stretches and deletes such lines on either side
+	short := func(s gseg) bool {
+		// per coordinate: x and y are printed independently
+		below := func(a, b float64) bool {
+			return math.Abs(a-b) <= 16*abs+1e-10+8*rel*math.Max(math.Abs(a), math.Abs(b))
+		}
+		return s.Kind == 'L' && below(s.P0.X, s.End.X) && below(s.P0.Y, s.End.Y)
+	}
 	carry := 0.0 // PostScript/PDF segments start at the current point: an arc's end error is inherited
 	slack := 0.0 // accumulated length of skipped sub-precision lines in the current subpath
 	i, j := 0, 0
@@ -90,6 +99,7 @@ func sameGeometry(want, got []gseg, rel, abs float64) (bad string, worst float64
 			if short(w) && !short(g) && i+1 < len(want) {
 				if m, _, _ := segSame(i+1, want[i+1], g, rel, abs, scale, carry, slack+w.P0.Dist(w.End)); m == "" {
 					slack += w.P0.Dist(w.End)
+					skippedSubResolution++
 					i++
 					continue
 				}
@@ -97,6 +107,7 @@ func sameGeometry(want, got []gseg, rel, abs float64) (bad string, worst float64
 			if short(g) && !short(w) && j+1 < len(got) {
 				if m, _, _ := segSame(i, w, got[j+1], rel, abs, scale, carry, slack+g.P0.Dist(g.End)); m == "" {
 					slack += g.P0.Dist(g.End)
+					skippedSubResolution++
 					j++
 					continue
 				}
@@ -113,11 +124,13 @@ func sameGeometry(want, got []gseg, rel, abs float64) (bad string, worst float64
 			}
 			if short(w) {
 				slack += w.P0.Dist(w.End)
+				skippedSubResolution++
 				i++
 				continue
 			}
 			if short(g) {
 				slack += g.P0.Dist(g.End)
+				skippedSubResolution++
 				j++
 				continue
 			}
@@ -139,6 +152,10 @@ func sameGeometry(want, got []gseg, rel, abs float64) (bad string, worst float64
 	}
 	return "", worst
 }
+
+// skippedSubResolution counts lines below the print resolution that sameGeometry skipped on one side
+// (reported in the histogram by printers).
+var skippedSubResolution int
 
 func segSame(i int, w, g gseg, rel, abs, scale, carry, slack float64) (bad string, ratio, newCarry float64) {
 	newCarry = carry
@@ -385,6 +402,10 @@ func printers(c *hc.Ctx) {
 					}
 				}
 			}
+		}
+		if skippedSubResolution > 0 {
+			c.Hist["geometry:sub-resolution-lines-skipped"] += skippedSubResolution
+			skippedSubResolution = 0
 		}
 		if it < 2 {
 			c.Sample(fmt.Sprintf("path %q  ToSVG %q  ToPDF %q  ToPS %q", p.String(), p.ToSVG(), p.ToPDF(), p.ToPS()))
